@@ -49,7 +49,7 @@ CHECK_DEADLOCK TRUE
 HOSTILE_MAIN = '{"T","W","F","C","V","J","K","X3"}'
 
 
-def mc_cfg(main=HOSTILE_MAIN, child='{"T","K"}', mm=3, mc=1, ms=1, tot=4, esrch="FALSE", clen="FALSE", noise="FALSE", tail=INV):
+def mc_cfg(main=HOSTILE_MAIN, child='{"T","K"}', mm=3, mc=1, ms=1, tot=3, esrch="FALSE", clen="FALSE", noise="FALSE", tail=INV):
     return BASE % (main, child, mm, mc, ms, tot, esrch, clen, noise) + tail
 
 
@@ -120,8 +120,8 @@ def expect_cex(ctx, what, r, kind):
 def run(ctx):
     t = ctx.tier == "thorough"
     # ---- 1. design level
-    r = ctx.tlc("Tracer", cfg=mc_cfg(noise="TRUE" if t else "FALSE", ms=2 if t else 1, tot=4 if t else 3,
-                                     child='{"T","K","C"}' if t else '{"T","K"}'),
+    # quick: 2 tasks, main <= 3 ops; thorough: 3 tasks (2 spawns, threads of children), SIGCHLD / group-stop noise
+    r = ctx.tlc("Tracer", cfg=mc_cfg(noise="TRUE", ms=2, mm=2, tot=3, child='{"T","K","C"}') if t else mc_cfg(),
                 workers=4, timeout=ctx.pick(400, 1500))
     if r.invariant or r.deadlock:
         raise vlib.Inconclusive("Tracer.tla (hostile) violates %s:\n%s" % (r.invariant or "deadlock-freedom", r.tail(60)))
